@@ -81,13 +81,33 @@ func init() {
 	w.Ls = []*zoo.FNode{w}
 	w.Mp = map[string]*zoo.FNode{"a": w}
 	c04TM, c04NM = hessian.ExtractTypeNameMap(w)
+	c04ClassNames = map[string]string{}
+	for k, v := range c04NM {
+		if t, ok := c04TM[k]; ok && t.Kind() == reflect.Struct {
+			c04ClassNames[k] = v
+		}
+	}
 }
+
+var c04ClassNames map[string]string
 
 // graphCheck: encode terminates (a death is caught by the driver), decode
 // succeeds, the decoded graph aliases exactly like the original, and the stream
 // read by the reference decoder (its own stream-order numbering of containers)
 // denotes the same graph as the independent projection of the Go value.
 func graphCheck(root *zoo.FNode) string {
+	if msg := graphCheckWith(root, c04NM); msg != "" {
+		return msg
+	}
+	// the same with a name map that names the classes only: lists travel untyped and are
+	// converted to the field types while references into them are still being bound
+	if msg := graphCheckWith(root, c04ClassNames); msg != "" {
+		return "(name map without list type names) " + msg
+	}
+	return ""
+}
+
+func graphCheckWith(root *zoo.FNode, c04NM map[string]string) string {
 	var b []byte
 	var err error
 	var out interface{}
